@@ -176,6 +176,9 @@ pub struct Ctx {
     pub scale: f64,
     /// restrict one stream to [a, b) and skip all others (bisection of aborts / hangs)
     pub range: Option<(String, u64, u64)>,
+    /// C03 only: if one case runs longer than this many seconds the process prints
+    /// `HANG <stream>:<index>` and exits with code 97 (the supervisor then re-runs that input alone)
+    pub hang_secs: Option<u64>,
 }
 
 impl Ctx {
@@ -214,10 +217,35 @@ where
     };
     let n = hi;
     let threads = ctx.threads.max(1) as u64;
+    // per worker: (case index + 1, or 0 when idle; start time in ms since `t0`)
+    let slots: Vec<(std::sync::atomic::AtomicU64, std::sync::atomic::AtomicU64)> = (0..threads).map(|_| (std::sync::atomic::AtomicU64::new(0), std::sync::atomic::AtomicU64::new(0))).collect();
+    let t0 = std::time::Instant::now();
+    let done = std::sync::atomic::AtomicBool::new(false);
     let reports: Vec<Report> = std::thread::scope(|sc| {
+        if let Some(limit) = ctx.hang_secs {
+            let slots = &slots;
+            let done = &done;
+            let stream = stream.to_string();
+            sc.spawn(move || {
+                use std::sync::atomic::Ordering;
+                while !done.load(Ordering::Relaxed) {
+                    std::thread::sleep(std::time::Duration::from_millis(250));
+                    let now = t0.elapsed().as_millis() as u64;
+                    for (case, start) in slots.iter() {
+                        let c = case.load(Ordering::Relaxed);
+                        let s = start.load(Ordering::Relaxed);
+                        if c != 0 && now.saturating_sub(s) > limit * 1000 && case.load(Ordering::Relaxed) == c {
+                            println!("HANG {}:{}", stream, c - 1);
+                            std::process::exit(97);
+                        }
+                    }
+                }
+            });
+        }
         let mut hs = vec![];
         for t in 0..threads {
             let f = &f;
+            let slot = &slots[t as usize];
             hs.push(
                 std::thread::Builder::new()
                     .stack_size(64 << 20)
@@ -225,7 +253,10 @@ where
                         let mut r = Report::new();
                         let mut i = lo + t;
                         while i < n {
+                            slot.1.store(t0.elapsed().as_millis() as u64, std::sync::atomic::Ordering::Relaxed);
+                            slot.0.store(i + 1, std::sync::atomic::Ordering::Relaxed);
                             f(i, &mut r);
+                            slot.0.store(0, std::sync::atomic::Ordering::Relaxed);
                             i += threads;
                         }
                         r
@@ -233,7 +264,9 @@ where
                     .unwrap(),
             );
         }
-        hs.into_iter().map(|h| h.join().expect("worker thread panicked (harness bug)")).collect()
+        let out = hs.into_iter().map(|h| h.join().expect("worker thread panicked (harness bug)")).collect();
+        done.store(true, std::sync::atomic::Ordering::Relaxed);
+        out
     });
     for r in reports {
         rep.merge(r);
